@@ -730,15 +730,18 @@ def decorate_with_checker(func: CallableT) -> CallableT:
                 in_progress = set()
                 _IN_PROGRESS.set(in_progress)
 
+            # If the wrapper is already checking the contracts for the wrapped function, avoid a recursive loop
+            # by skipping any subsequent contract checks for the same function.
+            #
+            # This re-entrant call must not unmark the function as in progress: the mark belongs to the outer
+            # call which is still checking the contracts.
+            if id_func in in_progress:
+                return await func(*args, **kwargs)
+
+            in_progress.add(id_func)
+
             # Use try-finally instead of ExitStack for performance.
             try:
-                # If the wrapper is already checking the contracts for the wrapped function, avoid a recursive loop
-                # by skipping any subsequent contract checks for the same function.
-                if id_func in in_progress:
-                    return await func(*args, **kwargs)
-
-                in_progress.add(id_func)
-
                 (preconditions, snapshots, postconditions) = _unpack_pre_snap_posts(
                     wrapper
                 )
@@ -803,15 +806,18 @@ def decorate_with_checker(func: CallableT) -> CallableT:
                 in_progress = set()
                 _IN_PROGRESS.set(in_progress)
 
+            # If the wrapper is already checking the contracts for the wrapped function, avoid a recursive loop
+            # by skipping any subsequent contract checks for the same function.
+            #
+            # This re-entrant call must not unmark the function as in progress: the mark belongs to the outer
+            # call which is still checking the contracts.
+            if id_func in in_progress:
+                return func(*args, **kwargs)
+
+            in_progress.add(id_func)
+
             # Use try-finally instead of ExitStack for performance.
             try:
-                # If the wrapper is already checking the contracts for the wrapped function, avoid a recursive loop
-                # by skipping any subsequent contract checks for the same function.
-                if id_func in in_progress:
-                    return func(*args, **kwargs)
-
-                in_progress.add(id_func)
-
                 (preconditions, snapshots, postconditions) = _unpack_pre_snap_posts(
                     wrapper
                 )
